@@ -598,6 +598,8 @@ class FileSystem(SimComponent):
         self.deleted_folders.pop(folder.uuid, None)
         folder.restore()
         self.folders[folder.uuid] = folder
+        # a later, since deleted, folder of the same name may own the route: point it back at the live folder
+        self._folder_request_manager.add_request(name=folder.name, request_type=RequestType(func=folder._request_manager))
         return True
 
     def restore_file(self, folder_name: str, file_name: str) -> bool:
